@@ -15,6 +15,14 @@ PROPS = {
              {"checks": 6000, "timeout": 300},
              {"checks": 25000, "shards": 16, "timeout": 1500},
              assumptions=COMMON_ASSUME),
+    "C02": P("TestC02", "exploration",
+             {"checks": 6000, "timeout": 300},
+             {"checks": 25000, "shards": 16, "timeout": 1500},
+             assumptions=COMMON_ASSUME),
+    "C03": P("TestC03", "exploration",
+             {"checks": 6000, "timeout": 300},
+             {"checks": 25000, "shards": 16, "timeout": 1500},
+             assumptions=COMMON_ASSUME),
 }
 
 TRUST = "Trusted base: Go runtime, net/http, compress/*, google.golang.org/protobuf, rapid, and the harness's own reference wire layer as the reading of the protocol specs. Generated search: absence of violations is evidence over the explored cases only."
@@ -23,6 +31,16 @@ META = {
     "C01": {
         "technique": "property-based testing (rapid): generated scenarios through the real Transcoder, independent reference encoders/decoders on both sides as oracle",
         "level_text": "Generated exploration of client form x config x codec x compression x message content; every delivered message is compared field-for-field (deterministic binary form) with what the other side sent; thorough runs 16 shards.",
+        "level_note": TRUST,
+    },
+    "C02": {
+        "technique": "property-based testing (rapid): generated configs x client requests; strict per-protocol request validator and negotiation rules as oracle at the backend handler",
+        "level_text": "Generated exploration over all 15 target-protocol subsets, codec lists and compression lists; every request reaching the handler is parsed by a validator written from the protocol specs and compared with the negotiation rules of the statement.",
+        "level_note": TRUST,
+    },
+    "C03": {
+        "technique": "property-based testing (rapid): generated backend scripts and failing requests; strict per-client-form response validator (status, content-type, envelopes, compression, Content-Length, single terminal disposition) as oracle",
+        "level_text": "Generated exploration of backend outcomes (OK, error after k messages, trailers-only, bare HTTP status) and of transcoder-originated failures, for all six client forms; every response is parsed by a validator written from the protocol specs.",
         "level_note": TRUST,
     },
 }
